@@ -356,6 +356,32 @@ func (fr *Frame) step(st *State, ins ssa.Instruction) bool {
 						NFacts: r.facts.Len(), Pc: st.pc, Goal: "false", Text: "return site reachable (expected: not refutable)"})
 				}
 			}
+			if r.dry == 0 && st.pc != "false" {
+				// every mutex this function acquired is, at each return, in the state it was in at entry
+				// (a function that is meant to return holding a lock says so with `holds_on_return`)
+				seenLock := map[string]bool{}
+				entryHeld := fr.r.initial("g|$held")
+				if fr.entry != nil {
+					entryHeld = r.get(fr.entry, "g|$held")
+				}
+				var ltags []string
+				if fr.contract != nil {
+					for _, t := range fr.contract.Flags["nopanic"] {
+						if strings.HasPrefix(t, "C") {
+							ltags = append(ltags, t)
+						}
+					}
+				}
+				for _, l := range r.locks {
+					if seenLock[l.term] || (fr.contract != nil && fr.contract.Flags["holds_on_return"] != nil) {
+						continue
+					}
+					seenLock[l.term] = true
+					goal := sEq(sSelect(r.get(st, "g|$held"), l.term), sSelect(entryHeld, l.term))
+					r.require(st, "lock-balance", fr.fname, fmt.Sprintf("balanced(%s.%s)@%s", l.owner, l.field, fr.anchorName(in, "return")), goal, ltags, in.Pos(),
+						"mutex "+l.owner+"."+l.field+" is held at return exactly if it was held at entry")
+				}
+			}
 			fr.checkEnsures(st, in, v)
 			fr.checkFrame(st, in)
 		}
